@@ -25,6 +25,32 @@ EXTRA = {
 }
 
 
+# promise combinators whose losers never settle / reject, awaited inside the body (the awaits are real suspensions under deferred answers)
+EXTRA_ASYNC = {
+    "race_never_loser": 'const never = new Promise(() => {}); const r: any = await Promise.race([never, Promise.resolve({ v: [1] })]); LOG(r.v.length);',
+    "race_never_loser_reject": 'const never = new Promise(() => {}); try { await Promise.race([never, Promise.reject(new Error("lost"))]); } catch (e: any) { LOG(e.message); }',
+    "race_order_vs_never": 'const never = new Promise(() => {}); const r: any = await Promise.race([never, order({ q: 1 })]); LOG(r);',
+    "any_with_never": 'const never = new Promise(() => {}); const r: any = await Promise.any([Promise.reject(new Error("a")), never, Promise.resolve({ w: 2 })]); LOG(r.w);',
+    "all_settled_mixed": 'const r: any = await Promise.allSettled([Promise.resolve({ a: 1 }), Promise.reject(new Error("b")), order({ c: 3 })]); LOG(r.length);',
+    "then_on_never": 'const never = new Promise(() => {}); never.then((v) => LOG(v)); never.finally(() => LOG(0)); LOG(1);',
+}
+# bodies run N times INSIDE one program: what a finished iteration leaves behind must not depend on N (the run with the larger N is
+# followed by a collection while the interpreter still holds that run's state)
+SCALED = {
+    "async_throw_catch": 'async function f(i: number) { const pad = { i, p: [i] }; throw new Error("x" + pad.p.length); } for (let i = 0; i < {N}; i++) { await f(i).catch((e: any) => e.message); } LOG({N});',
+    "async_throw_try_await": 'async function f(i: number) { const pad = [i, { i }]; if (pad.length) throw new Error("y"); return pad; } let c = 0; for (let i = 0; i < {N}; i++) { try { await f(i); } catch (e) { c++; } } LOG(c);',
+    "async_ok": 'async function f(i: number) { return { i, l: [i] }; } let s = 0; for (let i = 0; i < {N}; i++) { s += (await f(i)).l.length; } LOG(s);',
+    "sync_throw_catch": 'function f(i: number) { const pad = { i }; throw new Error("z" + pad.i); } let c = 0; for (let i = 0; i < {N}; i++) { try { f(i); } catch (e) { c++; } } LOG(c);',
+    "closures_in_loop": 'let s = 0; for (let i = 0; i < {N}; i++) { const big = { i, p: [i, i] }; const g = () => big.p.length + i; s += g(); } LOG(s);',
+    "generators_abandoned": 'function* g(i: number) { try { yield { i }; yield { i }; } finally { } } let s = 0; for (let i = 0; i < {N}; i++) { const it = g(i); s += it.next().value.i; } LOG(s);',
+    "for_of_break": 'let s = 0; for (let i = 0; i < {N}; i++) { for (const x of [{ a: i }, { a: i }]) { s += x.a; break; } } LOG(s);',
+    "promise_chains": 'let s = 0; for (let i = 0; i < {N}; i++) { s += await Promise.resolve({ i }).then((v) => v.i).then((v) => v + 1); } LOG(s);',
+    "race_in_loop": 'let s = 0; for (let i = 0; i < {N}; i++) { const r: any = await Promise.race([new Promise(() => {}), Promise.resolve({ i })]); s += r.i; } LOG(s);',
+    "orders_in_loop": 'let s = 0; for (let i = 0; i < {N}; i++) { s += (await order({ i })) as number; } LOG(s);',
+    "class_instances_in_loop": 'class C { k: any[] = []; constructor(public v: number) {} } let s = 0; for (let i = 0; i < {N}; i++) { const c = new C(i); c.k.push(c); s += c.k.length; } LOG(s);',
+}
+
+
 def wrap(body, role, asy=False):
     if role == "module":
         return 'import { LOG, ERR } from "verif:host";\nimport { order } from "tsrun:host";\n' + body + "\n"
@@ -55,6 +81,18 @@ def main(tier):
     for name, body in EXTRA.items():
         for role in ("module", "script"):
             add(wrap(body, role), "/p/main.ts" if role == "module" else None, "%s/%s" % (name, role))
+    for name, body in EXTRA_ASYNC.items():
+        add(wrap(body, "module"), "/p/main.ts", "%s/module" % name)
+        add(wrap(body, "script", True), None, "%s/script" % name)
+    # scaling inside one run: N = 3, 3, 12, 12, 3 - the ledger after every run must be the same
+    for name, body in SCALED.items():
+        for role in ("module", "script"):
+            runs = []
+            for nn in (3, 3, 12, 12, 3, 3):
+                src = wrap(body.replace("{N}", str(nn)), role, role == "script")
+                runs.append({"source": src, "path": "/p/main.ts" if role == "module" else None, "mode": "complete", "resp": [{"k": "val", "v": 1}], "role": "rep"})
+            for hm in ((None, "deferred") if "order(" in body else (None,)):
+                jobs.append({"id": len(jobs), "runs": [dict(r, host_mode=hm) if hm else r for r in runs]}); metas.append({"kind": "repeat"}); descr.append("scaled:%s%s/%s" % (name, "+" + hm if hm else "", role))
     import c02
     for i, b in enumerate(c02.corpus()):
         add(wrap(b, "module"), "/p/main.ts", "corpus%d/module" % i)
